@@ -124,6 +124,34 @@ int main(int argc, char** argv) {
             std::printf("F12: DEFECT rejected setup(P 2x2, c of size 3) changed later results: status %d vs twin %d, x size %ld vs %ld\n", sa, st, (long) a.result().x.size(), (long) t.result().x.size());
         else std::printf("F12: ok\n");
     }
+    if (which == "F13" || which == "all") {
+        // update(c, reuse_preconditioner=false) re-equilibrates P, A, G, but the KKT caches are only refreshed for the
+        // blocks that were passed: the factorised matrix no longer belongs to the scaled data.
+        // A fresh solver on the same data uses the same scaling, so it must take the same number of iterations.
+        V c2(3); c2 << -3, 0.25, 2;
+        int it_upd[2], it_fresh[2];
+        {
+            SparseSolver<double, int> a, f;
+            M P1 = q.P; P1(0, 0) = 400;   // make the first equilibration differ clearly from the second
+            SparseMat<double, int> P1s = P1.sparseView();
+            a.setup(P1s, q.c, q.As(), q.b, q.Gs(), q.h, q.lb, q.ub); a.solve();
+            a.update(q.Ps(), c2, nullopt, nullopt, nullopt, nullopt, nullopt, nullopt, false);
+            Status s1 = a.solve(); it_upd[0] = (int) a.result().info.iter;
+            f.setup(q.Ps(), c2, q.As(), q.b, q.Gs(), q.h, q.lb, q.ub); Status s2 = f.solve(); it_fresh[0] = (int) f.result().info.iter;
+            (void) s1; (void) s2;
+        }
+        {
+            DenseSolver<double> a, f;
+            M P1 = q.P; P1(0, 0) = 400;
+            a.setup(P1, q.c, q.A, q.b, q.G, q.h, q.lb, q.ub); a.solve();
+            a.update(q.P, c2, nullopt, nullopt, nullopt, nullopt, nullopt, nullopt, false);
+            a.solve(); it_upd[1] = (int) a.result().info.iter;
+            f.setup(q.P, c2, q.A, q.b, q.G, q.h, q.lb, q.ub); f.solve(); it_fresh[1] = (int) f.result().info.iter;
+        }
+        if (it_upd[0] != it_fresh[0] || it_upd[1] != it_fresh[1])
+            std::printf("F13: DEFECT after update(P, c, reuse=false) the solver needs %d (sparse) / %d (dense) iterations, a fresh solver with the same scaling %d / %d: stale KKT caches (A'A, G copies) are factorised\n", it_upd[0], it_upd[1], it_fresh[0], it_fresh[1]);
+        else std::printf("F13: ok\n");
+    }
     if (which == "F9") {
         // sparse: update(A') with the same nnz but a different pattern is accepted; run under ASan
         SparseSolver<double, int> a;
